@@ -30,13 +30,16 @@ DAY = 86400
 T0 = 1330387200      # 2012-02-28 00 UTC
 
 
-def dataset(seed, with_clim, near=False, unknown_elev=False, b_own_obs=False):
+def dataset(seed, with_clim, near=False, unknown_elev=False, b_own_obs=False, dateline=False):
     """near=True: hourly initialisation times and consecutive 7-digit station ids, i.e. coordinates that differ by less
     than any plausible relative tolerance (selection is by exact value)"""
     locs = gen.std_locs(4, seed)          # ids 100+.., lat 40,42.5,45,47.5 ; lon -120.. ; elev 1000,1250,1500,1750
     H6 = 3600 if near else 6 * 3600
     if near:
         locs = [(1000231 + i,) + tuple(l[1:]) for i, l in enumerate(locs)]
+    if dateline:
+        # the last station sits exactly on the 180th meridian (the inclusive end of a longitude range)
+        locs = [l if i != 3 else (l[0], l[1], 180.0, l[3]) for i, l in enumerate(locs)]
     if unknown_elev:
         # a station whose elevation is unknown (a NetCDF file without a value for it): inside no elevation range
         locs = [l if i != 1 else (l[0], l[1], l[2], float("nan")) for i, l in enumerate(locs)]
@@ -126,8 +129,12 @@ def h_api(ctx):
     extras = ctx.params.get("extras", True)
     unknown_elev = ctx.choose("unknown-elevation", (False, True)) if extras else False
     b_own_obs = ctx.choose("B-has-its-own-observations", (False, True)) if extras else False
-    A, B, clim, locs, times = dataset(seed, with_clim, near, unknown_elev, b_own_obs)
+    dateline = ctx.choose("station-on-the-180th-meridian", (False, True)) if extras else False
+    A, B, clim, locs, times = dataset(seed, with_clim, near, unknown_elev, b_own_obs, dateline)
     ov = option_values([l if l[3] == l[3] else (l[0], l[1], l[2], 1250.0) for l in locs], times, near)
+    if dateline:
+        ov = dict(ov)
+        ov["-lonrange"] = [[170.0, 180.0], ov["-lonrange"][1], [-180.0, -170.0]]      # the end point itself; the other side of the line
     kw = {}
     chosen = {}
     for o in OPTS:
@@ -135,6 +142,8 @@ def h_api(ctx):
         if v is not None:
             kw[KW[o]] = list(ov[o][v])
             chosen[o] = v
+    if dateline and "lon_range" in kw:
+        ctx.flag("dateline")
     obsr = ctx.choose("-obsrange", (None, 0, 1))
     allobs = sorted(set(A.fields["obs"].values()))
     if obsr == 0:
@@ -382,12 +391,12 @@ def run(tier, only=None):
         subs.append(core.Sub.from_e1("api", st, bound=bound,
                                      rule="one execution = one option combination on Data(); selected times/leadtimes/locations and every request "
                                           "compared with the reference; non-trivial = the selection is a strict subset",
-                                     required_flags=("empty", "obsrange", "unknown-elevation", "own-observations") if tier == "quick" else ("empty", "obsrange"), wall=time.time() - t0))
+                                     required_flags=("empty", "obsrange", "unknown-elevation", "own-observations", "dateline") if tier == "quick" else ("empty", "obsrange"), wall=time.time() - t0))
     if only in (None, "api-extras") and tier != "quick":
         t0 = time.time()
         st = explore.explore(h_api, mode="dev", k=4, repo_root=core.REPO, time_cap=1500)
-        subs.append(core.Sub.from_e1("api-extras", st, bound="dev(4) over the 9 options, -obsrange, an unknown station elevation and per-file observations",
-                                     rule="as api", required_flags=("empty", "obsrange", "unknown-elevation", "own-observations"), wall=time.time() - t0))
+        subs.append(core.Sub.from_e1("api-extras", st, bound="dev(4) over the 9 options, -obsrange, an unknown station elevation, per-file observations and a station on the 180th meridian",
+                                     rule="as api", required_flags=("empty", "obsrange", "unknown-elevation", "own-observations", "dateline"), wall=time.time() - t0))
     if only in (None, "api-near"):
         t0 = time.time()
         kk = 2 if tier == "quick" else 3
